@@ -83,6 +83,9 @@ pub fn minimise(cfg: &RunCfg, ops: &[Op], v: &Violation, budget: usize, base: &s
 	let mut best_cfg = cfg.clone();
 	let mut best_v = v.clone();
 	let mut used = 0usize;
+	// wall-clock cap as well (runs with thousands of keys take seconds each)
+	let t0 = std::time::Instant::now();
+	let max_wall = std::time::Duration::from_secs(if budget <= 150 { 40 } else { 400 });
 	// 1. drop the suffix after the violating op
 	if v.op_index != usize::MAX && v.op_index + 1 < best_ops.len() {
 		let cand: Vec<Op> = best_ops[..=v.op_index].to_vec();
@@ -95,10 +98,10 @@ pub fn minimise(cfg: &RunCfg, ops: &[Op], v: &Violation, budget: usize, base: &s
 	}
 	// 2. remove chunks, largest first
 	let mut chunk = std::cmp::max(1, best_ops.len() / 2);
-	while chunk >= 1 && used < budget {
+	while chunk >= 1 && used < budget && t0.elapsed() < max_wall {
 		let mut i = 0;
 		let mut progressed = false;
-		while i < best_ops.len() && used < budget {
+		while i < best_ops.len() && used < budget && t0.elapsed() < max_wall {
 			let end = std::cmp::min(best_ops.len(), i + chunk);
 			let mut cand = best_ops.clone();
 			cand.drain(i..end);
@@ -124,11 +127,11 @@ pub fn minimise(cfg: &RunCfg, ops: &[Op], v: &Violation, budget: usize, base: &s
 	}
 	// 3. shrink transactions
 	let mut idx = 0;
-	while idx < best_ops.len() && used < budget {
+	while idx < best_ops.len() && used < budget && t0.elapsed() < max_wall {
 		if let Op::Commit(tx) = &best_ops[idx] {
 			let mut tx = tx.clone();
 			let mut j = 0;
-			while j < tx.len() && tx.len() > 1 && used < budget {
+			while j < tx.len() && tx.len() > 1 && used < budget && t0.elapsed() < max_wall {
 				let mut t2 = tx.clone();
 				t2.remove(j);
 				let mut cand = best_ops.clone();
@@ -147,7 +150,7 @@ pub fn minimise(cfg: &RunCfg, ops: &[Op], v: &Violation, budget: usize, base: &s
 		idx += 1;
 	}
 	// 4. remove buggify faults
-	if used < budget && (best_cfg.max_read != 0 || best_cfg.max_write != 0 || best_cfg.eintr_one_in != 0) {
+	if used < budget && t0.elapsed() < max_wall && (best_cfg.max_read != 0 || best_cfg.max_write != 0 || best_cfg.eintr_one_in != 0) {
 		let mut c2 = best_cfg.clone();
 		c2.max_read = 0;
 		c2.max_write = 0;
@@ -161,7 +164,7 @@ pub fn minimise(cfg: &RunCfg, ops: &[Op], v: &Violation, budget: usize, base: &s
 	}
 	// 5. simplify crash plans: single boundary image / no recrash
 	let mut idx = 0;
-	while idx < best_ops.len() && used < budget {
+	while idx < best_ops.len() && used < budget && t0.elapsed() < max_wall {
 		if let Op::Crash { inner, plan } = &best_ops[idx] {
 			if plan.recrash > 0 {
 				let mut p2 = plan.clone();
@@ -313,6 +316,7 @@ fn worker(args: &[String]) -> i32 {
 			let _ = std::fs::write(&out_path, agg.json().to_string());
 			unsafe { libc::_exit(3) };
 		}
+		let blocked = out.blocked;
 		agg.add(&out);
 		let h = case_hash(&cfg, &ops);
 		agg.distinct.insert(h);
@@ -357,6 +361,11 @@ fn worker(args: &[String]) -> i32 {
 					"fingerprint": format!("{:016x}", out.result.fingerprint),
 				}));
 			}
+		}
+		if blocked {
+			// the run thread is leaked and still holds its files: this worker ends here
+			let _ = std::fs::write(&out_path, agg.json().to_string());
+			unsafe { libc::_exit(4) };
 		}
 	}
 	let _ = std::fs::remove_dir_all(&base);
@@ -608,6 +617,8 @@ fn cmd_check(args: &[String]) -> i32 {
 		let st = c.wait();
 		match st {
 			Ok(s) if s.success() => {},
+			// a worker ends after a run whose thread stayed blocked (reported as a violation)
+			Ok(s) if s.code() == Some(4) => {},
 			Ok(s) => harness_errors.push(format!("worker {w} exited with {s}")),
 			Err(e) => harness_errors.push(format!("worker {w}: {e}")),
 		}
@@ -712,9 +723,20 @@ fn cmd_check(args: &[String]) -> i32 {
 		}
 		processed_own += 1;
 		let mbudget = if tier_s == "quick" { 150 } else { 1500 };
-		let (mcfg, mops, mv, used) = minimise(&cfg, &ops, &confirmed, mbudget, &base);
+		let is_blocked = vc == "blocked-forever" || vc == "no-return";
+		let (mcfg, mops, mv, used) = if is_blocked {
+			// every attempt costs the full detection window and leaks a thread: only the suffix
+			// after the blocking op is dropped
+			let upto = std::cmp::min(ops.len(), confirmed.op_index.saturating_add(1));
+			(cfg.clone(), ops[..upto].to_vec(), confirmed.clone(), 0)
+		} else {
+			crate::OP_LIMIT.store(15, std::sync::atomic::Ordering::Relaxed);
+			let r = minimise(&cfg, &ops, &confirmed, mbudget, &base);
+			crate::OP_LIMIT.store(crate::OP_WALL_LIMIT_SECS, std::sync::atomic::Ordering::Relaxed);
+			r
+		};
 		// replay the minimised list once more; must hit the same class
-		let again = run_once(&mcfg, &mops, &base);
+		let again = if is_blocked { first } else { run_once(&mcfg, &mops, &base) };
 		let Some(final_v) = same_class(&again, &vp, &vc) else {
 			harness_errors.push(format!("minimised counterexample for {vp}/{vc} did not replay"));
 			continue
